@@ -288,10 +288,10 @@ pub fn counters_json(stats: &Stats, prefixes: &[&str]) -> Value {
     Value::Object(m)
 }
 
-pub fn write_replay(dir: &str, prop: &str, seed: u64, profile: Profile, actions: usize, v: &Violation) -> String {
+pub fn write_replay(dir: &str, prop: &'static str, seed: u64, profile: Profile, actions: usize, v: &Violation) -> String {
     let _ = std::fs::create_dir_all(dir);
     // re-run with tracing to capture the tail of the history
-    let r = run_exec(seed, profile, actions, 300);
+    let r = crate::sim::gen::run_exec_focus(seed, profile, actions, 300, Some(prop));
     let path = format!("{}/{}-{}-{}.json", dir, prop, profile.name(), seed);
     let j = json!({
         "property": prop,
@@ -337,6 +337,9 @@ pub fn run_cluster_check(a: &CheckArgs, spec: &PropSpec) -> i32 {
             threads: a.threads,
             max_secs,
             stop_on_violation: false,
+            focus: Some(spec.id),
+            stop_after: 200,
+            known_sigs: known.iter().map(|k| k.signature.clone()).collect(),
         };
         let o = run_cluster(&cfg);
         total = Some(match total {
